@@ -1256,7 +1256,31 @@ def k_derived(tw):
                      _DERIVED, name="derived_" + tw)
 
 
+RE_X = "pf/result_extraction.py"
+_FLUID = {"get_fluid": ("obj", "fluid"), "fluid.get_compressibility": ("fun", "fl_compressibility", 2),
+          "fluid.get_density": ("fun", "fl_density", 1), "get_branch_real_density": ("var", "rho_real", "b")}
+
+
+def k_gasres_np():
+    return translate(RE_X, "get_branch_results_gas", {"net": "obj", "branch_pit": "bpit", "node_pit": "npit",
+                                                      "from_nodes": "from", "to_nodes": "to"},
+                     name="gasres_np", opaque_calls=_FLUID)
+
+
+def k_gasres_nb():
+    return [translate(RE_X, "get_pressures_numba", {"node_pit": "npit", "from_nodes": "from", "to_nodes": "to"},
+                      name="gaspress_nb"),
+            translate(RE_X, "get_gas_vel_numba", {"node_pit": "npit", "branch_pit": "bpit"}, name="gasvel_nb")]
+
+
+def k_basic(gas):
+    return translate(RE_X, "get_basic_branch_results", {"net": "obj", "branch_pit": "bpit", "node_pit": "npit"},
+                     name="basic_gas" if gas else "basic_liq", opaque_calls=_FLUID, attr_consts={"fluid.is_gas": gas})
+
+
 FILES = {
+    "KGasResNp": lambda: [k_gasres_np()], "KGasResNb": k_gasres_nb,
+    "KBasicRes": lambda: [k_basic(False), k_basic(True)],
     "KHydIncompNp": lambda: [k_hyd_incomp("np")], "KHydIncompNb": lambda: [k_hyd_incomp("nb")],
     "KHydCompNp": lambda: [k_hyd_comp("np")], "KHydCompNb": lambda: [k_hyd_comp("nb")],
     "KThermNp": lambda: [k_therm("np"), k_branches_flow("np")],
